@@ -205,6 +205,7 @@ class SynthDef(metaclass=MetaSynthDef):
         self._controls = []
         self._control_index = 0
         self._max_local_bufs = None
+        self._callable_args = None
 
     def _build_ugen_graph(self, func, rates, prepend):
         # // Save/restore controls in case of SynthDef.wrap.
@@ -221,7 +222,10 @@ class SynthDef(metaclass=MetaSynthDef):
             raise TypeError('func argument is not a function')
 
         sig = inspect.signature(func)
-        self._callable_args = list(sig.parameters.keys())
+        if self._callable_args is None:
+            # Names for __call__: the definition's own function (not the
+            # wrapped ones) without the prepended parameters.
+            self._callable_args = list(sig.parameters.keys())[skip_args:]
         params = list(sig.parameters.values())
 
         if not params:
